@@ -36,6 +36,9 @@ SCRIPTS = [
     # refused in the middle of hasflag's non-deterministic arguments (the parser rewinds its lexer there)
     'require "imap4flags";\nif hasflag {',
     '# first\nkeep;\n',
+    # the two spellings of a tag parameter whose declared type is the scalar "stringlist" (serialising one must not change how the other parses)
+    'require "body";\nif body :content ["text", "html"] :contains "x" { keep; }\n',
+    'require "body";\nif body :content "text" :contains "x" { keep; }\n',
 ]
 FS_OPS = [
     ("add-plain", [("Subject", ":is", "x")], [("fileinto", "B")]),
